@@ -34,9 +34,9 @@ func init() {
 		},
 		N: func(t string) int {
 			if t == "thorough" {
-				return 400000
+				return 2000000
 			}
-			return 16000
+			return 60000
 		},
 		Batch:   4000,
 		Stall:   5 * time.Second,
